@@ -321,6 +321,8 @@ type runOut struct {
 	results   [][]string
 	final     string
 	deadlock  string // non-empty: description of the blocked threads
+	// deadlockScopes: the number of different mutexes the blocked threads wait for
+	deadlockScopes int
 	panicked  string
 	panicOp   string
 	misuse    string
@@ -355,6 +357,19 @@ func runScheduled(p Prog, schedule []int) runOut {
 	if len(seen) > 0 {
 		s.names[seen[0]] = "parent"
 	}
+	for _, x := range []struct {
+		e    *env.Env
+		name string
+	}{{w.child, "child"}, {w.mod0, fmt.Sprintf("module%d", idMod0)}} {
+		if x.e == nil {
+			continue
+		}
+		seen = nil
+		x.e.GetValueSymbols()
+		if len(seen) > 0 && s.names[seen[0]] == "" {
+			s.names[seen[0]] = x.name
+		}
+	}
 	env.VerifLockHook = s.hook
 	for _, t := range s.threads {
 		go s.worker(t, w)
@@ -378,15 +393,18 @@ func runScheduled(p Prog, schedule []int) runOut {
 		}
 		if len(en) == 0 {
 			var d []string
+			waited := map[*mstate]bool{}
 			for _, t := range s.threads {
 				if t.state == stDone {
 					continue
 				}
 				m := s.mu(t.reqM)
+				waited[m] = true
 				what := map[int]string{stBlockedW: "Lock", stBlockedDrain: "Lock", stBlockedR: "RLock"}[t.state]
 				d = append(d, fmt.Sprintf("T%d in %s blocked in %s(%s) [readers=%d writer-slot=%s]", t.id, t.curOp(), what, m.name, m.readers, ownerText(m)))
 			}
 			out.deadlock = strings.Join(d, "; ")
+			out.deadlockScopes = len(waited)
 			break
 		}
 		// the enabled threads in thread order, rotated so that the thread that ran last
